@@ -32,15 +32,22 @@ package scen
 // mutates its arguments.
 
 import (
-	"sort"
+	"slices"
 	"strings"
 )
+
+// c19ID is the index of a key in the key pool.
+type c19ID = uint16
+
+// c19PoolSize: enough keys for several hundred disjoint regions (the thorough
+// tier persists queues of up to 900 regions).
+const c19PoolSize = 2048
 
 // c19Ent is one queue entry: a prefix and the sorted ids (indices into the key
 // pool) of its keys. The reprovide queue uses entries without keys.
 type c19Ent struct {
 	P string
-	K []uint8
+	K []c19ID
 }
 
 // c19State is the abstract state: the queue, and what the datastore holds.
@@ -58,27 +65,16 @@ type c19State struct {
 
 func c19IsPrefix(short, long string) bool { return strings.HasPrefix(long, short) }
 
-func c19Union(a, b []uint8) []uint8 {
-	seen := [256]bool{}
-	out := make([]uint8, 0, len(a)+len(b))
-	for _, x := range a {
-		if !seen[x] {
-			seen[x] = true
-			out = append(out, x)
-		}
-	}
-	for _, x := range b {
-		if !seen[x] {
-			seen[x] = true
-			out = append(out, x)
-		}
-	}
-	sort.Slice(out, func(i, j int) bool { return out[i] < out[j] })
-	return out
+func c19Union(a, b []c19ID) []c19ID {
+	out := make([]c19ID, 0, len(a)+len(b))
+	out = append(out, a...)
+	out = append(out, b...)
+	slices.Sort(out)
+	return slices.Compact(out)
 }
 
-func c19Minus(a []uint8, drop func(uint8) bool) []uint8 {
-	out := make([]uint8, 0, len(a))
+func c19Minus(a []c19ID, drop func(c19ID) bool) []c19ID {
+	out := make([]c19ID, 0, len(a))
 	for _, x := range a {
 		if !drop(x) {
 			out = append(out, x)
@@ -87,7 +83,7 @@ func c19Minus(a []uint8, drop func(uint8) bool) []uint8 {
 	return out
 }
 
-func c19EqKeys(a, b []uint8) bool {
+func c19EqKeys(a, b []c19ID) bool {
 	if len(a) != len(b) {
 		return false
 	}
@@ -137,7 +133,7 @@ type c19Info struct {
 
 // mEnqueue implements the Enqueue contract. withKeys=false is the reprovide
 // queue (prefixes only).
-func c19MEnqueue(ents []c19Ent, p string, keys []uint8, info *c19Info) []c19Ent {
+func c19MEnqueue(ents []c19Ent, p string, keys []c19ID, info *c19Info) []c19Ent {
 	// same prefix, or covered by a shorter one: join in place
 	for i, e := range ents {
 		if c19IsPrefix(e.P, p) {
@@ -183,8 +179,8 @@ func c19MEnqueue(ents []c19Ent, p string, keys []uint8, info *c19Info) []c19Ent 
 
 // c19MDequeueMatching removes all keys under p. bits gives the bit string of a
 // key id.
-func c19MDequeueMatching(ents []c19Ent, p string, bits func(uint8) string, info *c19Info) ([]c19Ent, []uint8) {
-	var got []uint8
+func c19MDequeueMatching(ents []c19Ent, p string, bits func(c19ID) string, info *c19Info) ([]c19Ent, []c19ID) {
+	var got []c19ID
 	out := make([]c19Ent, 0, len(ents))
 	removed := 0
 	for _, e := range ents {
@@ -193,8 +189,8 @@ func c19MDequeueMatching(ents []c19Ent, p string, bits func(uint8) string, info 
 			got = c19Union(got, e.K)
 			removed++
 		case c19IsPrefix(e.P, p): // entry covers p: take the matching keys only
-			rest := c19Minus(e.K, func(k uint8) bool { return c19IsPrefix(p, bits(k)) })
-			taken := c19Minus(e.K, func(k uint8) bool { return !c19IsPrefix(p, bits(k)) })
+			rest := c19Minus(e.K, func(k c19ID) bool { return c19IsPrefix(p, bits(k)) })
+			taken := c19Minus(e.K, func(k c19ID) bool { return !c19IsPrefix(p, bits(k)) })
 			got = c19Union(got, taken)
 			if len(rest) == 0 {
 				removed++
@@ -218,15 +214,11 @@ func c19MDequeueMatching(ents []c19Ent, p string, bits func(uint8) string, info 
 	return out, c19Union(got, nil)
 }
 
-func c19MRemove(ents []c19Ent, keys []uint8, info *c19Info) []c19Ent {
-	drop := [256]bool{}
-	for _, k := range keys {
-		drop[k] = true
-	}
+func c19MRemove(ents []c19Ent, keys []c19ID, info *c19Info) []c19Ent {
 	out := make([]c19Ent, 0, len(ents))
 	hit := 0
 	for _, e := range ents {
-		rest := c19Minus(e.K, func(k uint8) bool { return drop[k] })
+		rest := c19Minus(e.K, func(k c19ID) bool { return slices.Contains(keys, k) })
 		hit += len(e.K) - len(rest)
 		if len(rest) == 0 {
 			if info != nil {
@@ -317,7 +309,8 @@ func c19Canon(st *c19State) string {
 			b.WriteString(e.P)
 			b.WriteByte(':')
 			for _, k := range e.K {
-				b.WriteByte("0123456789abcdef"[k>>4])
+				b.WriteByte("0123456789abcdef"[(k>>8)&15])
+				b.WriteByte("0123456789abcdef"[(k>>4)&15])
 				b.WriteByte("0123456789abcdef"[k&15])
 			}
 			b.WriteByte(';')
@@ -351,7 +344,7 @@ func c19NewState(ents []c19Ent, havoc, pk bool, pers []c19Ent) *c19State {
 
 // c19ModelCfg selects the variant of the model.
 type c19ModelCfg struct {
-	bits func(uint8) string
+	bits func(c19ID) string
 	// tolerateEmptyLoss: additionally accept, for a datastore that holds the
 	// single entry under the EMPTY prefix, a drain that loads nothing and
 	// leaves the datastore as it was (the defect of DESIGN §7 #10). Used only
@@ -418,13 +411,14 @@ func c19Step(cfg *c19ModelCfg, st *c19State, o *c19Op, info *c19Info) (bool, *c1
 	case "drain":
 		// additive drain of the live datastore into the queue under test
 		if cfg.relaxDS {
-			if o.errStr == "" && st.pk && len(st.pers) == 0 {
+			if o.errStr == "" && !o.corrupt && st.pk && len(st.pers) == 0 {
 				return true, st // nothing persisted: nothing to load under any reading
 			}
 			return true, c19NewState(nil, true, false, nil)
 		}
-		if o.errStr != "" {
-			// may have loaded any part, may have deleted any part
+		if o.errStr != "" || o.corrupt {
+			// may have loaded any part, may have deleted any part (corrupt: it
+			// read a datastore holding a torn entry, see c19_restore.go)
 			return true, c19NewState(nil, true, false, nil)
 		}
 		if !st.pk {
